@@ -74,6 +74,9 @@ thread_local! {
     static CTOR_SEED: RefCell<Option<u64>> = RefCell::new(None);
     /// C20: what the guest and the host can observe of a run, in order
     static TRACE: RefCell<Option<Vec<String>>> = RefCell::new(None);
+    /// C20: serve the pipe handler other descriptor numbers (a bijection on the drawn values that changes
+    /// their order) and leave the descriptor table out of the memory observation
+    static FD_PERM: RefCell<(bool, bool)> = RefCell::new((false, false)); // (permute draws, hide descriptor table)
 }
 
 fn trace_push(s: String) {
@@ -106,6 +109,39 @@ pub fn run_c20(sc: &Sc, ctx: &mut Ctx) {
         let k = traces[0].iter().zip(traces[1].iter()).position(|(a, b)| a != b).unwrap_or(traces[0].len().min(traces[1].len()));
         let what = traces[0].get(k).map(|s| s.split(':').next().unwrap_or("?").to_string()).unwrap_or_else(|| "length".into());
         ctx.dev("C20", format!("C20|sys|{}|{what}", sc.kind), format!("two machines given the same program and syscalls diverge at observation {k}: {:?} vs {:?}", traces[0].get(k), traces[1].get(k)));
+    }
+    // the one exception the statement makes - descriptor numbers - must stay an exception: with other
+    // numbers handed out (in another order) everything that is not a descriptor number is unchanged.
+    // Judged for programs whose every descriptor argument comes from the table pipe() filled.
+    let only_table_fds = sc.kind == "pipe" && sc.ops.iter().all(|o| match o {
+        Op::Write { fd, buf, .. } | Op::Read { fd, buf, .. } => fd != "imm" && buf == "ok",
+        Op::Pipe { buf, .. } => buf == "ok",
+        _ => true,
+    });
+    let distinct_draws = {
+        let mut d: Vec<u64> = sc.rng_values.iter().map(|v| v & 0xffff).collect();
+        d.sort();
+        d.windows(2).all(|w| w[0] != w[1])
+    };
+    if only_table_fds && distinct_draws {
+        let mut t2: Vec<Vec<String>> = Vec::new();
+        for permute in [false, true] {
+            CTOR_SEED.with(|c| *c.borrow_mut() = Some(sc.rng_seed ^ 0xA1));
+            FD_PERM.with(|f| *f.borrow_mut() = (permute, true));
+            TRACE.with(|t| *t.borrow_mut() = Some(Vec::new()));
+            let mut scratch = Ctx::new();
+            run("C20", sc, &mut scratch);
+            ctx.guest_steps += scratch.guest_steps;
+            t2.push(TRACE.with(|t| t.borrow_mut().take()).unwrap_or_default());
+        }
+        CTOR_SEED.with(|c| *c.borrow_mut() = None);
+        FD_PERM.with(|f| *f.borrow_mut() = (false, false));
+        ctx.fault("descriptor_numbers_varied");
+        if t2[0] != t2[1] {
+            let k = t2[0].iter().zip(t2[1].iter()).position(|(a, b)| a != b).unwrap_or(t2[0].len().min(t2[1].len()));
+            let what = t2[0].get(k).map(|s| s.split(':').next().unwrap_or("?").to_string()).unwrap_or_else(|| "length".into());
+            ctx.dev("C20", format!("C20|sys|pipe|descriptor_numbers_leak|{what}"), format!("with other descriptor numbers handed out the run differs in something that is not a descriptor number, at observation {k}: {:?} vs {:?}", t2[0].get(k), t2[1].get(k)).chars().take(600).collect());
+        }
     }
     ctx.log_u64(crate::rng::fnv1a(traces[0].join("|").as_bytes()));
 }
@@ -453,7 +489,15 @@ pub fn run(_prop: &str, sc: &Sc, ctx: &mut Ctx) {
         }
     };
     // descriptor draws come from the scenario (after the constructor consumed its own share)
-    install_ax_rng_values(sc.rng_values.clone(), sc.rng_seed);
+    let (permute, hide_fdt) = FD_PERM.with(|f| *f.borrow());
+    let draws: Vec<u64> = if permute {
+        // descriptor = (low 16 bits of the draw) + 1024: an odd multiplier is a bijection on 16 bits, so
+        // equal draws stay equal and distinct ones distinct, but their numeric order changes
+        sc.rng_values.iter().map(|v| (v & !0xffff) | ((v & 0xffff).wrapping_mul(40503).wrapping_add(12345) & 0xffff)).collect()
+    } else {
+        sc.rng_values.clone()
+    };
+    install_ax_rng_values(draws, sc.rng_seed);
     let setup: Result<Result<(), String>, Panicked> = catch(|| {
         let src = Rng::new(sc.src_seed).bytes(DATA_LEN as usize);
         ax.mem_init_area(DATA, src).map_err(|e| e.to_string())?;
@@ -531,7 +575,7 @@ pub fn run(_prop: &str, sc: &Sc, ctx: &mut Ctx) {
         let o = observe(&ax);
         // RAX is written by every program; the other registers only by some (and are compared per operation where they are)
         trace_push(format!("final:{:x}:{:x}:{}:{}", o.rip, o.gpr[0], o.executed, o.finished));
-        trace_push(format!("mem:{:?}", o.areas.iter().map(|a| a.3).collect::<Vec<_>>()));
+        trace_push(format!("mem:{:?}", o.areas.iter().filter(|a| !(hide_fdt && a.0 == FDT)).map(|a| a.3).collect::<Vec<_>>()));
     }
     set_dispatch(None);
 }
